@@ -17,8 +17,13 @@ pub fn check() -> Check {
     Check { id: "C01", plan, run_case, finalize }
 }
 
-const CONSTRUCTS: &[&str] = &["paren", "abs", "subscript", "fn", "unary-not", "if-then", "if-else", "mixed"];
-const DEPTHS_QUICK: &[u64] = &[8, 32, 64, 65, 128, 1000];
+const CONSTRUCTS: &[&str] = &[
+    "paren", "abs", "subscript", "fn", "unary-not", "if-then", "if-else", "mixed",
+    // a single token (or short phrase) repeated: any recursion path that is not behind the nesting limit shows here
+    "rep:-", "rep:+", "rep:NOT ", "rep:1+", "rep:1^", "rep:1<", "rep:1 AND ", "rep:A,", "rep:\"x\";", "rep::", "rep:?", "rep:A=", "rep:1,",
+    "rep:FOR I=1 TO ", "rep:GOSUB 10:", "rep:DATA 1:", "rep:REM", "rep:ELSE ", "rep:THEN ", "rep:DEF FNA(X)=", "rep:INPUT ", "rep:READ ",
+];
+const DEPTHS_QUICK: &[u64] = &[8, 32, 64, 65, 128, 1000, 100_000];
 const DEPTHS_THOROUGH: &[u64] = &[8, 32, 63, 64, 65, 66, 128, 1000, 10_000, 100_000];
 const STACKS_KIB: &[u64] = &[1024, 2048, 8192];
 const APIS: &[&str] = &["immediate", "program", "analyzer"];
@@ -61,6 +66,11 @@ pub fn nested_line(construct: &str, d: usize) -> (Vec<String>, String) {
         "unary-not" => (vec![], format!("PRINT {}1{}", open("NOT ("), open(")"))),
         "if-then" => (vec![], format!("{}PRINT 1", open("IF 1 THEN "))),
         "if-else" => (vec![], format!("{}PRINT 2", open("IF 0 THEN PRINT 1 ELSE "))),
+        c if c.starts_with("rep:") => {
+            let tok = &c[4..];
+            let head = if tok.starts_with(|ch: char| ch == '-' || ch == '+' || ch == '1' || ch == 'N' || ch == '"' || ch == 'A') && !tok.starts_with("A=") { "PRINT " } else { "" };
+            (vec![], format!("{}{}1", head, tok.repeat(d)))
+        }
         _ => (vec![], format!("{}PRINT {}1{}", "IF 1 THEN ".repeat(d / 2), "(".repeat(d / 2), ")".repeat(d / 2))),
     }
 }
